@@ -1496,6 +1496,8 @@ func specMetersInv(up4 *UP4, appSize, sessSize int64) bool {
 }
 
 //@ func (up4 *UP4) configureMeters(qers []qer) (err error)
+//@   requires C11.store.locked: up4 != nil && held(&up4.storeMu)
+//@   ensures C11.store.stilllocked: held(&up4.storeMu)
 //@   requires up4 != nil && up4.p4RtTranslator != nil && up4.p4client != nil
 //@   requires specMetersInv(up4, specAppCells(), specSessCells())
 //@   ensures C15.meters.inv: specMetersInv(up4, specAppCells(), specSessCells())
@@ -1508,6 +1510,8 @@ func specMetersInv(up4 *UP4, appSize, sessSize int64) bool {
 //@   loop 1 invariant C04.meters.l1.ok: forall j int :: 0 <= j && j <= rangeidx && (qers[j].qosLevel == ApplicationQos || qers[j].qosLevel == SessionQos) ==> has(up4.meters, meterID{qers[j].qerID, qers[j].fseID})
 
 //@ func (up4 *UP4) resetMeters(qers []qer)
+//@   requires C11.store.locked: up4 != nil && held(&up4.storeMu)
+//@   ensures C11.store.stilllocked: held(&up4.storeMu)
 //@   requires up4 != nil && up4.p4client != nil
 //@   requires specMetersInv(up4, specAppCells(), specSessCells())
 //@   ensures C15.reset.inv: specMetersInv(up4, specAppCells(), specSessCells())
@@ -1800,6 +1804,8 @@ func specModifyEnv(up4 *UP4) bool {
 }
 
 //@ func (up4 *UP4) modifyUP4ForwardingConfiguration(pdrs []pdr, allFARs []far, qers []qer, methodType p4.Update_Type) (err error)
+//@   requires C11.store.locked: up4 != nil && held(&up4.storeMu)
+//@   ensures C11.store.stilllocked: held(&up4.storeMu)
 //@   requires specModifyEnv(up4)
 //@   requires specMetersInv(up4, specAppCells(), specSessCells()) && specPeersInv(up4) && specAppsInv(up4)
 //@   requires C16.modify.envelope: specConfEnvelope(up4) && specRulesEnvelope(pdrs, qers, specCounterCells())
@@ -1871,6 +1877,8 @@ func specAllWritesOK(t0, m0, b0 int) bool {
 }
 
 //@ func (up4 *UP4) sendCreate(all PacketForwardingRules, updated PacketForwardingRules) (err error)
+//@   requires C11.store.locked: up4 != nil && held(&up4.storeMu)
+//@   ensures C11.store.stilllocked: held(&up4.storeMu)
 //@   requires specUP4Inv(up4, specAppCells(), specSessCells(), specCounterCells())
 //@   requires len(all.pdrs) == len(updated.pdrs)
 //@   requires C16.create.envelope: specConfEnvelope(up4) && specPortsOrdered(all.pdrs) && specQFIsValid(all.qers)
@@ -1887,6 +1895,8 @@ func specAllWritesOK(t0, m0, b0 int) bool {
 //@   loop 2 invariant C15.create.l2.inv: up4.ueAddrToFSEID != nil && up4.fseidToUEAddr != nil
 
 //@ func (up4 *UP4) sendUpdate(all PacketForwardingRules, updated PacketForwardingRules) (err error)
+//@   requires C11.store.locked: up4 != nil && held(&up4.storeMu)
+//@   ensures C11.store.stilllocked: held(&up4.storeMu)
 //@   requires specUP4Inv(up4, specAppCells(), specSessCells(), specCounterCells())
 //@   requires C16.update.envelope: specConfEnvelope(up4) && specRulesEnvelope(all.pdrs, all.qers, specCounterCells())
 //@   ensures C15.update.inv: specUP4Inv(up4, specAppCells(), specSessCells(), specCounterCells())
@@ -1902,6 +1912,8 @@ func specCountersOwned(up4 *UP4, pdrs []pdr, ctrs int64) bool {
 }
 
 //@ func (up4 *UP4) sendDelete(deleted PacketForwardingRules) (err error)
+//@   requires C11.store.locked: up4 != nil && held(&up4.storeMu)
+//@   ensures C11.store.stilllocked: held(&up4.storeMu)
 //@   requires specUP4Inv(up4, specAppCells(), specSessCells(), specCounterCells())
 //@   requires C16.delete.envelope: specConfEnvelope(up4) && specRulesEnvelope(deleted.pdrs, deleted.qers, specCounterCells())
 //@   ensures C15.delete.inv: specUP4Inv(up4, specAppCells(), specSessCells(), specCounterCells())
@@ -1958,6 +1970,8 @@ func specIfaceEnv(n *net.IPNet) bool {
 //@   ensures C15.clear.inv: err == nil ==> specMetersInv(up4, specAppCells(), specSessCells())
 
 //@ func (up4 *UP4) SendMsgToUPF(method upfMsgType, all PacketForwardingRules, updated PacketForwardingRules) (cause uint8)
+//@   requires up4 != nil && !held(&up4.storeMu)
+//@   ensures C11.send.lock: !held(&up4.storeMu)
 //@   requires specUP4Inv(up4, specAppCells(), specSessCells(), specCounterCells())
 //@   requires C16.send.envelope: specConfEnvelope(up4) && specPortsOrdered(all.pdrs) && specQFIsValid(all.qers) && (method == upfMsgTypeAdd ==> len(all.pdrs) == len(updated.pdrs)) && (method != upfMsgTypeAdd ==> specRulesEnvelope(all.pdrs, all.qers, specCounterCells()))
 //@   ensures C15.send.cause: cause == ie.CauseRequestAccepted || cause == ie.CauseRequestRejected
@@ -1975,3 +1989,6 @@ func specIfaceEnv(n *net.IPNet) bool {
 // reported by the obligation "atomic/second critical section".
 //@ guarded UP4.tunnelPeerIDs, UP4.tunnelPeerIDsPool by UP4.tunnelPeerMu
 //@ guarded UP4.applicationIDs, UP4.applicationIDsPool by UP4.applicationMu
+// The maps without a lock of their own are guarded by the request lock that SendMsgToUPF takes
+// (the DDN listener takes it around its look-up).
+//@ guarded UP4.meters, UP4.ueAddrToFSEID, UP4.fseidToUEAddr by UP4.storeMu
